@@ -46,7 +46,10 @@ def gen_time(rng):
         cc = int(rng.integers(0, 100))
         return '%02d:%02d:%02d.%02d' % (h, m, s, cc), datetime.time(h, m, s, cc * 10000), 'hh:mm:ss.cc'
     bad = ['25:00:00', '10:61:00', '10:00:61', '10:00', 'abc', '10:00:00:xx', '10:00:00:', '1:2:3:4:5', ' ',
-           '10-00-00', '10:00:00.xx', 'aa:bb:cc', '10:00:00:99', '-1:00:00', '10:00:00.', '24:00:00']
+           '10-00-00', '10:00:00.xx', 'aa:bb:cc', '10:00:00:99', '-1:00:00', '10:00:00.', '24:00:00',
+           # spellings that other parsers (ISO 8601, float()) would take: still not one of the three FCS formats
+           '16:50:29Z', '16:50:29+01', 'T16:50:29', '16:50:29,5', '16:50:29.1234567', '10:00:00:1e999', '10:00:00:inf',
+           '10:00:00:nan', '10:00:00:-5', '10:00:00:60', '165029', '16:50:29 PM']
     return bad[int(rng.integers(len(bad)))], None, 'ill-formed'
 
 
